@@ -11,6 +11,8 @@ import (
 	zz "gitlab.com/gomidi/midi/v2/internal/zzverif"
 )
 
+var c09longPayload int // set by the harness from its parameters (< 128)
+
 // c09file: a two-track format-1 file with fixed structure and symbolic data bytes: running status, tempo meta,
 // two-byte delta, sysex, an alien chunk between the tracks.
 func c09file(withAlien bool) []byte {
@@ -19,6 +21,11 @@ func c09file(withAlien bool) []byte {
 	t1 := []byte{d7("d1"), 0x90 | ch, d7("k1"), d7("v1")}
 	t1 = append(t1, d7("d2"), d7("k2"), d7("v2")) // running status
 	t1 = append(t1, d7("d3"), 0xFF, 0x51, 0x03, zz.U8("t0"), zz.U8("t1"), zz.U8("t2"))
+	if c09longPayload > 0 {
+		// one sysex whose payload needs many reads when the source delivers a byte at a time
+		t1 = append(t1, 0x00, 0xF0, byte(c09longPayload))
+		t1 = append(t1, zz.Bytes("long", c09longPayload)...)
+	}
 	t1 = append(t1, 0x81, d7("d4"), 0xF0, 0x03, zz.U8("x"), zz.U8("y"), zz.U8("z"))
 	t1 = append(t1, d7("d5"), 0xFF, 0x2F, 0x00)
 	t2 := []byte{d7("e1"), 0xC0 | ch, d7("p")}
@@ -109,6 +116,7 @@ func c09errKind(err error) int {
 
 // VerifC09Frag: whole-buffer read vs. fragmented read of the same (valid or truncated) bytes.
 func VerifC09Frag() {
+	c09longPayload = zz.Param("longpayload")
 	file := c09file(zz.Choice("alien", zz.Param("alienchoices")) == zz.Param("alienchoices")-1)
 	cut := len(file)
 	if zz.Param("truncate") == 1 {
